@@ -289,6 +289,11 @@ def correspond(ctx):
     T.generic_probe_part(ctx, c, 'clockseq', 'clockseq_out', K.gen_clockseq, K.clockseq_expected,
                          (('nrt', ctx.n(32, 320)), ('rt', ctx.n(18, 120))), 'stamp_is_logical_plus_latency',
                          'clock state changes then sends')
+    # RT AppClock tasks with other entries queued; main-thread sends racing a slow task on each clock thread
+    T.generic_probe_part(ctx, c, 'appclock', 'appclock_out', K.gen_appclock, K.appclock_expected, (('rt', ctx.n(10, 60)),),
+                         'stamp_is_logical_plus_latency', 'AppClock tasks with other entries queued')
+    T.generic_probe_part(ctx, c, 'race', 'race_out', K.gen_race, K.race_expected, (('rt', ctx.n(9, 45)),),
+                         'stamp_outside_is_now_plus_latency', 'main-thread sends racing a slow clock task')
     heap_part(ctx, c)
     shared_part(ctx, c)
     cases, outs = T.nrt_part(ctx, c, ctx.n(150, 1500), MINE, None)
